@@ -85,9 +85,11 @@ func (s *Stash) Add(form Form) {
 	}
 	s.forms = append(s.forms, form.Dup())
 	if 0 < len(s.filename) {
+		verifCrash("stash.add.open")
 		f, err := os.OpenFile(s.filename, os.O_APPEND|os.O_CREATE|os.O_WRONLY, 0644)
 		if err == nil {
 			defer func() { _ = f.Close() }()
+			verifCrash("stash.add.write")
 			_, err = f.Write(append(form.Append(nil), '\n'))
 		}
 		if err != nil {
@@ -169,12 +171,14 @@ func (s *Stash) Clear(start, end int) {
 	if len(s.filename) == 0 {
 		return
 	}
+	verifCrash("stash.clear.open")
 	f, err := os.OpenFile(s.filename, os.O_TRUNC|os.O_APPEND|os.O_CREATE|os.O_WRONLY, 0644)
 	if err != nil {
 		panic(err)
 	}
 	defer func() { _ = f.Close() }()
 	for _, frm := range s.forms {
+		verifCrash("stash.clear.write")
 		if _, err = f.Write(frm.TabAppend(nil)); err != nil {
 			panic(err)
 		}
